@@ -5,6 +5,7 @@ import (
 	"go/ast"
 	"go/token"
 	"go/types"
+	"golang.org/x/tools/go/packages"
 	"strings"
 
 	"golang.org/x/tools/go/ssa"
@@ -183,6 +184,23 @@ func C19(p *engine.Prog, r *engine.Report) {
 			}
 		}
 	}
+	// the same gate behind a boolean helper: if s.keyMismatch(r.key) {…}
+	for _, i := range engine.Ifs(readReq) {
+		c, neg := stripNot(i.Cond)
+		call, ok := c.(*ssa.Call)
+		if !ok || call.Call.StaticCallee() == nil || len(call.Call.Args) < 2 || engine.Origin(call.Call.Args[0]) != recv {
+			continue
+		}
+		if j, isPred := keyMismatchPredicate(call.Call.StaticCallee()); isPred && j < len(call.Call.Args) {
+			if kb, isReqKey := loadOfField(call.Call.Args[j], "rpcRequest", "key"); isReqKey {
+				// pass edge: the predicate is false
+				g := engine.Guard{If: i, PassTrue: neg, Note: "!" + call.Call.StaticCallee().Name() + "(r.key)"}
+				g1 = append(g1, g)
+				g2 = append(g2, g)
+				cmps = append(cmps, keyCmp{g, kb})
+			}
+		}
+	}
 	r.Check(len(g1) >= 1, "C19-R3", "readRequest|gate(apiKey configured)", p.Pos(readReq.Pos()), "found", "no comparison of s.apiKey with \"\"")
 	r.Check(len(g2) == 1, "C19-R3", "readRequest|gate(r.key == s.apiKey)", p.Pos(readReq.Pos()), "exact == / != comparison of the two strings", "need exactly one exact string comparison of an rpcRequest.key with s.apiKey")
 	gates := append(append([]engine.Guard{}, g1...), g2...)
@@ -334,7 +352,14 @@ func C19(p *engine.Prog, r *engine.Report) {
 					hasErr = true
 				}
 				if kname == "key" {
-					if sel, ok := kv.Value.(*ast.SelectorExpr); ok && sel.Sel.Name == "Key" {
+					val := kv.Value
+					// a local that is defined once as <jsonRequest>.Key and never assigned again
+					if id, ok := val.(*ast.Ident); ok {
+						if def := singleDefOf(pk, stack, id); def != nil {
+							val = def
+						}
+					}
+					if sel, ok := val.(*ast.SelectorExpr); ok && sel.Sel.Name == "Key" {
 						if id, ok := sel.X.(*ast.Ident); ok {
 							if t := pk.TypesInfo.TypeOf(id); t != nil {
 								if nn := engine.NamedOf(t); nn != nil && nn.Obj().Name() == "jsonRequest" {
@@ -636,4 +661,135 @@ func keyIsSetBefore(p *engine.Prog, fn *ssa.Function, at ssa.Instruction, setKey
 		return false, "no caller establishes SetApiKey"
 	}
 	return true, "every call site is behind SetApiKey()==nil"
+}
+
+// keyMismatchPredicate: h is a method of Server taking a string k such that
+//
+//	h(k) == true  implies  s.apiKey != "" and k != s.apiKey   (a refusal is justified), and
+//	h(k) == false implies  s.apiKey == "" or  k == s.apiKey   (a pass is exact),
+//
+// decided on h's own CFG. Returns the argument index of k.
+func keyMismatchPredicate(h *ssa.Function) (int, bool) {
+	if h.Blocks == nil || h.Signature.Recv() == nil || h.Signature.Results().Len() != 1 || len(h.Params) < 2 {
+		return 0, false
+	}
+	if n := engine.NamedOf(h.Signature.Recv().Type()); n == nil || n.Obj().Name() != "Server" {
+		return 0, false
+	}
+	if b, ok := h.Signature.Results().At(0).Type().Underlying().(*types.Basic); !ok || b.Kind() != types.Bool {
+		return 0, false
+	}
+	recv := ssa.Value(h.Params[0])
+	isKey := func(v ssa.Value) bool {
+		base, ok := loadOfField(v, "Server", "apiKey")
+		return ok && engine.Origin(base) == recv
+	}
+	for j := 1; j < len(h.Params); j++ {
+		k := ssa.Value(h.Params[j])
+		if b, ok := k.Type().Underlying().(*types.Basic); !ok || b.Kind() != types.String {
+			continue
+		}
+		// atoms over comparisons
+		cmp := func(v ssa.Value) (kind string, isEq bool, ok bool) {
+			x, y, eq, okc := eqCond(v)
+			if !okc {
+				return "", false, false
+			}
+			for _, pr := range [][2]ssa.Value{{x, y}, {y, x}} {
+				if !isKey(pr[0]) {
+					continue
+				}
+				if isConstString(pr[1], "") {
+					return "empty", eq, true
+				}
+				if engine.Origin(pr[1]) == k {
+					return "same", eq, true
+				}
+			}
+			return "", false, false
+		}
+		keySet := func(v ssa.Value) (bool, bool) { // atom: apiKey != ""
+			kind, eq, ok := cmp(v)
+			return ok && kind == "empty", !eq
+		}
+		differs := func(v ssa.Value) (bool, bool) { // atom: k != apiKey
+			kind, eq, ok := cmp(v)
+			return ok && kind == "same", !eq
+		}
+		allowed := func(v ssa.Value) (bool, bool) { // atom: apiKey == "" or k == apiKey
+			_, eq, ok := cmp(v)
+			return ok, eq
+		}
+		if returnsImply(h, true, keySet) && returnsImply(h, true, differs) && returnsImply(h, false, allowed) {
+			return j, true
+		}
+	}
+	return 0, false
+}
+
+// singleDefOf: id names a local variable of the enclosing function that is defined exactly once by
+// `x := <expr>` (or `var x = <expr>`) and never assigned again; returns <expr>.
+func singleDefOf(pk *packages.Package, stack []ast.Node, id *ast.Ident) ast.Expr {
+	obj := pk.TypesInfo.Uses[id]
+	if obj == nil {
+		return nil
+	}
+	var fn ast.Node
+	for i := len(stack) - 1; i >= 0; i-- {
+		switch stack[i].(type) {
+		case *ast.FuncDecl, *ast.FuncLit:
+			fn = stack[i]
+		}
+		if fn != nil {
+			break
+		}
+	}
+	if fn == nil {
+		return nil
+	}
+	var def ast.Expr
+	nAssign := 0
+	ast.Inspect(fn, func(n ast.Node) bool {
+		switch x := n.(type) {
+		case *ast.AssignStmt:
+			for i, l := range x.Lhs {
+				lid, ok := l.(*ast.Ident)
+				if !ok {
+					continue
+				}
+				if pk.TypesInfo.Defs[lid] == obj || pk.TypesInfo.Uses[lid] == obj {
+					nAssign++
+					if len(x.Lhs) == len(x.Rhs) {
+						def = x.Rhs[i]
+					} else {
+						def = nil
+					}
+				}
+			}
+		case *ast.ValueSpec:
+			for i, nm := range x.Names {
+				if pk.TypesInfo.Defs[nm] == obj {
+					nAssign++
+					if i < len(x.Values) {
+						def = x.Values[i]
+					}
+				}
+			}
+		case *ast.UnaryExpr:
+			if x.Op == token.AND {
+				if aid, ok := x.X.(*ast.Ident); ok && pk.TypesInfo.Uses[aid] == obj {
+					nAssign += 2 // address taken: may be written elsewhere
+				}
+			}
+		case *ast.IncDecStmt:
+			if aid, ok := x.X.(*ast.Ident); ok && pk.TypesInfo.Uses[aid] == obj {
+				nAssign++
+			}
+		}
+		return true
+	})
+	if nAssign != 1 {
+		return nil
+	}
+	return def
 }
